@@ -128,6 +128,14 @@ def units(tier):
             plain = ("prog", "exp", "s", ("uid",), ("ret", (("A", "1"), ("B", "1"))))
             txt = f"// {v}\n/* {v} */ " + rp.render(plain) + f" // {v}"
             out.append(("raw", "comment", plain, [{"uid": i} for i in range(3)], txt))
+    # literals beyond the range of a double (both paths must still agree, whatever they do with them)
+    huge = "1" + "0" * 309 + ".0"
+    for body in (f'if f == {huge} {{ return "T" weighted 1 }} else {{ return "F" weighted 1 }}', f'if f in ({huge}, 1) {{ return "T" weighted 1 }} else {{ return "F" weighted 1 }}',
+                 f'if f > - {huge} {{ return "T" weighted 1 }} else {{ return "F" weighted 1 }}', f'return {huge} weighted 1, "B" weighted 1', f'return "A" weighted {huge}, "B" weighted 1'):
+        txt = "def exp { splitters: uid " + body + " }"
+        cl = rp.classify(txt)
+        if cl[0] == "accept":
+            out.append(("raw", "hugefloat", cl[1], [{"uid": i, "f": f} for i in range(3) for f in (1, 0.5, float("inf"))], txt))
     # weighted multi-group returns, salts, no splitters (random draw, seeded identically)
     wv = (("A", "1"), ("B", "2"), (3, "0.5"), (-1.5, "0"))
     for salt in (None, "s", "é'\\"):
